@@ -163,6 +163,11 @@ func sortEigensystem(eigenvectors Matrix, eigenvalues Vector) {
 func eigensystem(a Matrix, inSitu *InSitu, computeEigenvectors, symmetric bool, args ...interface{}) (Vector, Matrix, error) {
   eigenvalues  := inSitu.Eigenvalues
   eigenvectors := inSitu.Eigenvectors
+  if !computeEigenvectors {
+    // a recycled InSitu may still hold the eigenvector buffer of an
+    // earlier call; without ComputeU there is no u to fill it from
+    eigenvectors = nil
+  }
 
   n, _ := a.Dims()
 
